@@ -63,6 +63,8 @@ class Fn:
             return "[" + "; ".join(self.expr(x) for x in e.elts) + "]"
         if isinstance(e, ast.BinOp):
             op = {ast.Add: "+", ast.Sub: "-", ast.Mult: "*", ast.FloorDiv: "/", ast.Mod: "mod"}.get(type(e.op))
+            if isinstance(e.op, ast.BitOr):
+                return f"({self.expr(e.left)} || {self.expr(e.right)})"      # element-wise `|` of two comparisons, per record
             if not op:
                 raise Unsupported("operator " + ast.dump(e.op))
             return f"({self.expr(e.left)} {op} {self.expr(e.right)})"
@@ -91,6 +93,10 @@ class Fn:
             return "(" + " && ".join(parts) + ")" if len(parts) > 1 else parts[0]
         if isinstance(e, ast.IfExp):
             return f"(if {self.expr(e.test)} then {self.expr(e.body)} else {self.expr(e.orelse)})"
+        if isinstance(e, ast.Subscript) and ast.unparse(e) in self.attrs:
+            return self.attrs[ast.unparse(e)]       # a named column of a record, e.g. chunk['bin1_id'] -> b1
+        if isinstance(e, ast.BinOp) and isinstance(e.op, ast.BitOr):
+            return f"({self.expr(e.left)} || {self.expr(e.right)})"      # element-wise `|` of two comparisons, per record
         if isinstance(e, ast.Subscript) and isinstance(e.value, ast.Name) and not isinstance(e.slice, (ast.Slice, ast.Tuple)):
             # seq[k] for an index the surrounding code keeps non-negative (negative indices would wrap in Python: the
             # callers of this translator only use it under a guard k >= 0 that is itself translated)
@@ -488,6 +494,74 @@ def tr_multseq(tree):
             "Definition multseq_source_pins : bool := true.")
 
 
+def tr_validate(tree):
+    """_validate_pixels: the per-record predicates of the three integer checks are translated (a numpy comparison over a
+    column becomes the comparison on one record, `|` becomes ||); the order of the checks, the flag guarding each, the
+    NaN test, the duplicate test and the optional sort are pinned"""
+    f = find(tree, "_validate_pixels")
+    if [a.arg for a in f.args.args] != ["chunk", "n_bins", "boundscheck", "triucheck", "dupcheck", "ensure_sorted"]:
+        raise Unsupported("signature of _validate_pixels")
+    st = strip_doc(f.body)
+    if len(st) != 6:
+        raise Unsupported("_validate_pixels: statement count")
+    fn = Fn(attrs={"chunk['bin1_id']": "b1", "chunk['bin2_id']": "b2"}, may_raise=False)
+    defs = {}
+
+    def check_pair(assign, test, name, msg_prefix):
+        if not (isinstance(assign, ast.Assign) and ast.unparse(assign.targets[0]) == name):
+            raise Unsupported(f"_validate_pixels: expected the assignment of {name}")
+        if not (isinstance(test, ast.If) and ast.unparse(test.test) == f"np.any({name})" and not test.orelse
+                and len(test.body) == 1 and isinstance(test.body[0], ast.Raise)
+                and ast.unparse(test.body[0].exc).startswith("BadInputError(" + msg_prefix)):
+            raise Unsupported(f"_validate_pixels: the test that follows {name} changed")
+        return assign.value
+
+    b = st[0]
+    if not (isinstance(b, ast.If) and ast.unparse(b.test) == "boundscheck" and not b.orelse and len(b.body) == 6):
+        raise Unsupported("_validate_pixels: boundscheck block")
+    miss = check_pair(b.body[0], b.body[1], "is_missing", "'Found a missing")
+    if ast.unparse(miss) != "pd.isna(chunk['bin1_id']) | pd.isna(chunk['bin2_id'])":
+        raise Unsupported("_validate_pixels: NaN test changed")
+    defs["vp_is_neg"] = ("(b1 b2 : Z)", fn.expr(check_pair(b.body[2], b.body[3], "is_neg", "'Found bin ID < 0")))
+    defs["vp_is_excess"] = ("(b1 b2 n_bins : Z)", fn.expr(check_pair(b.body[4], b.body[5], "is_excess", "'Found a bin ID that exceeds")))
+    t = st[1]
+    if not (isinstance(t, ast.If) and ast.unparse(t.test) == "triucheck" and not t.orelse and len(t.body) == 2):
+        raise Unsupported("_validate_pixels: triucheck block")
+    defs["vp_is_tril"] = ("(b1 b2 : Z)", fn.expr(check_pair(t.body[0], t.body[1], "is_tril", "'Found bin1_id greater")))
+    pin(st[2], """
+        if not isinstance(chunk, pd.DataFrame):
+            chunk = pd.DataFrame(chunk)
+    """)
+    d = st[3]
+    if not (isinstance(d, ast.If) and ast.unparse(d.test) == "dupcheck" and not d.orelse
+            and ast.unparse(d.body[0]) == "is_dup = chunk.duplicated(['bin1_id', 'bin2_id'])"
+            and ast.unparse(d.body[1].test) == "is_dup.any()" and isinstance(d.body[1].body[-1], ast.Raise)):
+        raise Unsupported("_validate_pixels: dupcheck block")
+    pin(st[4], """
+        if ensure_sorted:
+            chunk = chunk.sort_values(['bin1_id', 'bin2_id'])
+    """)
+    pin(st[5], "return chunk")
+    out = [f"Definition {k} {sig} : bool := {body}." for k, (sig, body) in defs.items()]
+    out.append("Definition validate_pixels_source_pins : bool := true.")
+    return "\n".join(out)
+
+
+def tr_create_pins(tree):
+    """create(): the validator is chained for exactly the documented flags, after triucheck was switched off for square
+    storage; write_pixels: the integer fit check guards every store"""
+    c = ast.unparse(find(tree, "create"))
+    for needle in ["if not symmetric_upper and triucheck:\n        warnings.warn('Creating a non-symmetric matrix, but `triucheck` was set to True. Changing to False.', stacklevel=2)\n        triucheck = False\n    if boundscheck or triucheck or dupcheck or ensure_sorted:\n        validator = validate_pixels(n_bins, boundscheck, triucheck, dupcheck, ensure_sorted)\n        iterable = map(validator, iterable)\n"]:
+        if needle not in c:
+            raise Unsupported("create: the validator chaining changed")
+    w = ast.unparse(find(tree, "write_pixels"))
+    for needle in ["data = np.asarray(chunk[col])\n                    if n and np.issubdtype(dset.dtype, np.integer) and np.issubdtype(data.dtype, np.integer):\n                        limits = np.iinfo(dset.dtype)\n                        if data.min() < limits.min or data.max() > limits.max:\n                            raise ValueError(",
+                   "dset.resize((nnz + n,))\n                    dset[nnz:nnz + n] = data\n                nnz += n\n                if 'count' in chunk:\n                    total += chunk['count'].sum()\n"]:
+        if needle not in w:
+            raise Unsupported("write_pixels: pinned block changed: " + needle[:60])
+    return "Definition create_write_source_pins : bool := true."
+
+
 ITEMS = [
     ("core/_rangequery.py", "comes_before", lambda t: tr_cmp(t, "_comes_before", "comes_before")),
     ("core/_rangequery.py", "contains", lambda t: tr_cmp(t, "_contains", "contains")),
@@ -499,6 +573,8 @@ ITEMS = [
     ("util.py", "partition", tr_partition),
     ("_balance.py", "balance_span_pins", tr_balance_pins),
     ("_reduce.py", "multseq_scan", tr_multseq),
+    ("create/_ingest.py", "validate_pixels_source_pins", tr_validate),
+    ("create/_create.py", "create_write_source_pins", tr_create_pins),
 ]
 
 
